@@ -2287,3 +2287,53 @@ def check_herm_tolerance(case):
 
 
 SUBCHECKS.append(SubCheck("herm_tolerance", check_herm_tolerance, _hermtol_case, lambda c: f"{c['fn']},{c['side']}", quick=1200, thorough=24000, shards=4))
+
+
+# Tolerance *arguments* of the allclose-based predicates: I + eps*E_{0,n-1} differs from the property only at an entry
+# whose comparison partner is exactly 0, where numpy.allclose allows atol and nothing else.  Default and custom
+# (rtol, atol) pairs; eps = 30..100 x atol must be rejected, atol / 30..100 accepted.
+_TOLARG_FUNCS = ["is_hermitian", "is_symmetric", "is_anti_hermitian", "is_identity", "is_unitary", "is_idempotent", "is_projection"]
+
+
+@st.composite
+def _tolarg_case(draw):
+    return {
+        "fn": draw(st.sampled_from(_TOLARG_FUNCS)),
+        "n": draw(st.integers(2, 6)),
+        "tols": draw(st.sampled_from([None, [1e-9, 1e-6], [1e-3, 1e-10], [1e-7, 1e-4], [1e-12, 1e-8]])),
+        "side": draw(st.sampled_from(["violates", "within"])),
+        "factor": draw(st.sampled_from([30.0, 100.0])),
+        "imag": draw(st.booleans()),
+        "how": draw(st.sampled_from(["keyword", "positional"])),
+    }
+
+
+def check_tolerance_args(case):
+    import toqito.matrix_props as mp
+
+    fn = getattr(mp, case["fn"])
+    n = case["n"]
+    rtol, atol = case["tols"] if case["tols"] is not None else (1e-5, 1e-8)
+    eps = atol * case["factor"] if case["side"] == "violates" else atol / case["factor"]
+    cplx = case["imag"] and case["fn"] not in ("is_symmetric",)
+    m = np.eye(n, dtype=complex if (cplx or case["fn"] == "is_anti_hermitian") else float)
+    m[0, n - 1] += (1j if cplx else 1.0) * eps
+    if case["fn"] == "is_anti_hermitian":
+        m = 1j * np.eye(n) + 0j
+        m[0, n - 1] += eps
+    if case["tols"] is None:
+        got = bool(fn(m))
+    elif case["how"] == "keyword":
+        got = bool(fn(m, rtol=rtol, atol=atol))
+    else:
+        got = bool(fn(m, rtol, atol))
+    want = case["side"] == "within"
+    req(
+        got == want,
+        f"{case['fn']}(base + {eps:.1e} * E_0,{n - 1}, {'defaults' if case['tols'] is None else f'rtol={rtol:g}, atol={atol:g} ({case[chr(104) + chr(111) + chr(119)]})'}) returned {got}; "
+        f"the perturbed entry is compared with an exact 0, so the tolerance is atol = {atol:g} and the definition gives {want}",
+        "tolerance-arguments",
+    )
+
+
+SUBCHECKS.append(SubCheck("tolerance_args", check_tolerance_args, _tolarg_case, lambda c: f"{c['fn']},{c['side']},tols={c['tols']},{c['how']}", quick=2500, thorough=40000, shards=4))
